@@ -61,9 +61,22 @@ def make_nm(init):
         args["estim"] = getattr(NM, init["estim"])
     if init.get("bet") is not None:
         args["bet"] = getattr(NM, init["bet"])
-    nm = NM(**args, **kw)
+    # `kw_ctor`: keyword values given to the constructor that are re-assigned afterwards (`test.g = ...`, as the unit
+    # tests of the library do): init["kw"] holds the values in force when the test is run.  `pre_call`: the object
+    # has already been used once, with the parameters it was built with, before u / the keywords were re-assigned.
+    # A test is a function of the object's CURRENT attributes; nothing of the earlier configuration may show.
+    ctor = {k: float(F(v)) for k, v in (init.get("kw_ctor") or {}).items()}
+    nm = NM(**args, **{**kw, **ctor})
+    if init.get("pre_call"):
+        try:
+            with np.errstate(all="ignore"):
+                nm.test(np.array([args["u"] / 2, 0.0, args["u"], args["u"] / 4]))
+        except Exception:  # noqa: the earlier use may fail; what counts is the call that follows
+            pass
     if init.get("u_now") is not None:
         nm.u = float(F(init["u_now"]))
+    for k in ctor:
+        setattr(nm, k, kw[k])
     return nm
 
 
@@ -890,7 +903,76 @@ def gen_zero_over_zero(rng, tier):
     return None
 
 
+STALE = {"g": [F(0), F(1, 10), F(1, 4), F(2, 5)], "rate_error_2": [F(0), F(1, 100), F(1, 10)],
+         "c_grapa_0": [F(1, 2), F(3, 4), F(9, 10)], "c_grapa_max": [F(9, 10), F(99, 100)],
+         "c_grapa_grow": [F(0), F(1, 10), F(5)]}
+
+
+def gen_reassigned(rng, tier):
+    """a test object whose keyword parameters (g, eta, lam, c, d, f, minsd, ...) are re-assigned as attributes after
+    construction, possibly after the object has been used once and possibly together with `test.u`: the run must be
+    that of a fresh object built with the final values (init["kw"] = the values in force)"""
+    for _ in range(8):
+        c = gen_case(rng, tier, "test")
+        init = c["init"]
+        keys = [k for k, v in init["kw"].items() if v is not None]
+        if c["stream"] == "malformed" or not keys:
+            continue
+        u, t = F(init["u"]), F(init["t"])
+        ctor = {}
+        for k in rng.sample(keys, rng.randint(1, len(keys))):
+            v = F(init["kw"][k])
+            if k in STALE:
+                alt = [a for a in STALE[k] if a != v]
+            elif k == "eta":
+                alt = [a for a in (t + (u - t) * F(j, 8) for j in (1, 3, 5, 7)) if a != v]
+            elif k == "lam":
+                alt = [a for a in (F(0), F(1, 4) / u, F(3, 4) / u, F(1) / u) if a != v]
+            else:                               # c, d, f, minsd: another positive value
+                alt = [v * 2, v / 2] if v != 0 else [F(1, 4)]
+            ctor[k] = S(rng.choice(alt))
+        init["kw_ctor"] = ctor
+        init["pre_call"] = rng.chance(0.6)
+        c["stream"] = "reassigned:" + c["stream"]
+        return c
+    return None
+
+
+def rescaled(rng, tier):
+    """the same problem in other units: every quantity that carries the unit of the observations (x, u, t, eta, c,
+    minsd, f, additive padding g, u_now) multiplied by a power of two s (exact in binary64), bets divided by it.
+    Populations counted in millionths or in millions are legitimate inputs; the relative tolerances of the masks
+    (`isclose(u, mu_j)`) scale with them, the absolute ones (2*eps) do not matter at these magnitudes."""
+    for _ in range(8):
+        c = gen_case(rng, tier, "test")
+        init = c["init"]
+        if c["stream"] == "malformed" or init.get("estim") == "optimal_comparison" or c.get("int_dtype"):
+            continue
+        s_ = rng.choice([F(1, 2 ** 20), F(1, 2 ** 20), F(1, 2 ** 24), F(1, 2 ** 30), F(1, 2 ** 10), F(2 ** 10), F(2 ** 20)])
+        test = init["test"]
+        for k in ("u", "t", "u_now"):
+            if init.get(k) is not None:
+                init[k] = S(F(init[k]) * s_)
+        kw = init["kw"]
+        for k in ("eta", "c", "minsd", "f"):
+            if kw.get(k) is not None:
+                kw[k] = S(F(kw[k]) * s_)
+        if kw.get("g") is not None and test in ("kaplan_kolmogorov", "kaplan_markov"):
+            kw["g"] = S(F(kw["g"]) * s_)            # additive padding; kaplan_wald's g is a fraction
+        if kw.get("lam") is not None:
+            kw["lam"] = S(F(kw["lam"]) / s_)
+        c["x"] = [S(F(v) * s_) for v in c["x"]]
+        c["stream"] = f"scale{'-' if s_ < 1 else '+'}:" + c["stream"]
+        return c
+    return None
+
+
 def gen_extra(rng, tier):
+    r = rng.random()
+    if r < 0.18:
+        return gen_reassigned(rng, tier)
+    if r < 0.36:
+        return rescaled(rng, tier)
     r = rng.random()
     if r < 0.30:
         return gen_narrow_int(rng, tier, NARROW_SIGNED + NARROW_UNSIGNED)
@@ -933,7 +1015,7 @@ def gen(rng, n, tier):
             yield c
         k += 1
     k = 0
-    while k < max(8, n // 10):
+    while k < max(12, n // 7):
         c = gen_extra(sub, tier)
         if c is not None:
             yield c
